@@ -18,7 +18,7 @@ import (
 )
 
 func init() {
-	workers["compose"] = func(args []string) { hx.ServeWorker(args[0], composeCall) }
+	workers["compose"] = func(args []string) { hx.ServeWorker(args[0], probed(composeCall, composeProbe)) }
 }
 
 type composeCase struct {
